@@ -15,7 +15,8 @@ import (
 type Op struct {
 	// Entry: "lib" (SourceLibrary.LoadSource directly), "loadfile"
 	// (LEnv.LoadFile), "loadfilectx" (LEnv.LoadFileContext), "lisp"
-	// ((load-file ...) evaluated from lisp source).
+	// ((load-file ...) evaluated from lisp source).  Mode "cli": "expr"
+	// (`elps run -e '(load-file "loc")'`), "file" (`elps run loc`).
 	Entry string `json:"entry"`
 	// Ctx is the loading file's location: passed as SourceContext.Location for
 	// "lib", as the location of the top-level source for "lisp" (LoadLocation;
@@ -26,8 +27,9 @@ type Op struct {
 
 // Case is one sandbox plus the loads attempted in it.
 type Case struct {
-	// Mode: "rfs" RelativeFileSystemLibrary{RootDir}; "dirfs" FSLibrary over
-	// os.DirFS(abs(root)) as cmd/run.go configures it; "mapfs" FSLibrary over a
+	// Mode: "rfs" RelativeFileSystemLibrary{RootDir}; "osroot" FSLibrary over
+	// os.OpenRoot(abs(root)).FS() in process, as cmd/run.go configures it;
+	// "cli" the real `elps run --root-dir` binary; "mapfs" FSLibrary over a
 	// testing/fstest.MapFS holding the sandbox's files (no disk).
 	Mode string  `json:"mode"`
 	SB   Sandbox `json:"sandbox"`
@@ -440,7 +442,7 @@ func (b *builder) chooseRootAndCwd() {
 	}
 	b.root = spell
 	s := subst(spell, genBase)
-	if b.mode == "dirfs" {
+	if b.mode == "osroot" || b.mode == "cli" {
 		if !isAbs(s) {
 			s = b.cwdReal + "/" + s
 		}
@@ -470,7 +472,7 @@ func (b *builder) buildLoads() {
 		if n.Kind != "file" {
 			continue
 		}
-		k := rapid.SampledFrom([]int{0, 0, 0, 0, 0, 1, 1, 1, 1, 2}).Draw(b.t, "nloads")
+		k := rapid.SampledFrom([]int{0, 0, 0, 0, 1, 1, 1, 1, 2, 2}).Draw(b.t, "nloads")
 		for i := 0; i < k; i++ {
 			n.Loads = append(n.Loads, b.genLoc(parentOf(b.m.abs(n)), b.fileIndex(n), 22))
 		}
@@ -529,6 +531,19 @@ func (b *builder) buildOps() []Op {
 		}
 	}
 	var ops []Op
+	if b.mode == "cli" {
+		files := 0
+		for i := 0; i < n; i++ {
+			op := Op{Entry: "expr"}
+			if files < 2 && b.pct("clifile", 25) {
+				op.Entry = "file"
+				files++
+			}
+			op.Loc = b.genLoc(top, 0, 22)
+			ops = append(ops, op)
+		}
+		return ops
+	}
 	for i := 0; i < n; i++ {
 		var op Op
 		switch k := rapid.IntRange(0, 19).Draw(b.t, "entry"); {
